@@ -133,6 +133,12 @@ where
 			&mut prefix,
 		)?;
 		let encoding = Encoding::detect(prefix.unread());
+		if matches!(encoding, Encoding::Utf8) && prefix.unread().starts_with(UTF8_BOM) {
+			// The UTF-16 and UTF-32 encoders drop a leading byte order mark
+			// themselves. UTF-8 passes through as is, so this is the only
+			// chance to treat its byte order mark the same way.
+			prefix.pos += UTF8_BOM.len();
+		}
 		Ok(Encoder::new(prefix.chain(reader), encoding))
 	}
 }
@@ -149,6 +155,10 @@ where
 		}
 	}
 }
+
+/// The UTF-8 encoding of U+FEFF, which YAML 1.2 allows at the start of a UTF-8
+/// stream as a byte order mark.
+pub(super) const UTF8_BOM: &[u8] = b"\xEF\xBB\xBF";
 
 /// The required size of a buffer large enough to encode any `char` as UTF-8,
 /// per [`char::encode_utf8`].
